@@ -152,7 +152,9 @@ func genC14(r *Rand, tier string) *Case {
 		}
 		want = want[:k]
 		end = "err"
-		switch r.Intn(5) {
+		switch r.Intn(6) {
+		case 5: // a negative field count that is not the -1 trailer
+			binary.BigEndian.PutUint16(stream[off:], uint16(r.PickInt(0x8000, 0xFFFE, 0xFF00, 0x8001+r.Intn(0x7ff0))))
 		case 0: // field count +1
 			binary.BigEndian.PutUint16(stream[off:], uint16(ncols+1))
 		case 1: // field count -1 (0 when one column)
@@ -281,7 +283,7 @@ func checkC14(x *Exec, c *Case) ([]Violation, bool) {
 func init() {
 	register(&Prop{
 		ID: "C14", Level: "exploration", QuickS: 25, ThoroughS: 420,
-		Rule:       "binary COPY streams (signature, flags, extension length 0, tuples, optional -1 trailer) produced by the independent encoder for tables of 1-5 columns over the covered types and 0-6 rows with NULLs anywhere; the chunking into CopyData messages is the schedule: for three short table shapes (stream <= 48 bytes), with and without trailer, EVERY split into 2 and into 3 CopyData messages is enumerated, plus whole-stream and one-byte-per-message; seeded cases use 1-byte messages, cuts inside the header, cuts exactly at row boundaries, random pieces incl. empty CopyData messages, on top of transport segmentation; corruptions: field count +1 / -1 / 0x7FFF, value length beyond the stream, truncated last row, garbage after the trailer; the rows returned by BinaryCopyReader.Read are compared with the encoded rows (value by value through the canonical form), the end of data must be io.EOF, a corruption must be an error and never a row, and the query after the COPY must be served; non-trivial = the row reader was driven at least once; distinct = distinct case content hashes",
+		Rule:       "binary COPY streams (signature, flags, extension length 0, tuples, optional -1 trailer) produced by the independent encoder for tables of 1-5 columns over the covered types and 0-6 rows with NULLs anywhere; the chunking into CopyData messages is the schedule: for three short table shapes (stream <= 48 bytes), with and without trailer, EVERY split into 2 and into 3 CopyData messages is enumerated, plus whole-stream and one-byte-per-message; seeded cases use 1-byte messages, cuts inside the header, cuts exactly at row boundaries, random pieces incl. empty CopyData messages, on top of transport segmentation; corruptions: field count +1 / -1 / 0x7FFF / negative other than the -1 trailer, value length beyond the stream, truncated last row, garbage after the trailer; the rows returned by BinaryCopyReader.Read are compared with the encoded rows (value by value through the canonical form), the end of data must be io.EOF, a corruption must be an error and never a row, and the query after the COPY must be served; non-trivial = the row reader was driven at least once; distinct = distinct case content hashes",
 		Exhaustive: "all 2-piece and 3-piece splits of the encoded stream for 3 table shapes x {trailer, no trailer} (streams <= 48 bytes)",
 		Components: e1Components, Assumptions: commonAssumptions,
 		Fixed: c14Fixed, Gen: genC14, Check: checkC14,
